@@ -25,11 +25,20 @@ import (
 //	S  Stop + Wait, then a new BaseWAL on the same directory and Start (OnStart writes
 //	   EndHeightMessage{0} iff the head file is empty, i.e. also right after a rotation)
 //
+// Scheduling points: the BaseWAL's encoder writes through a thin in-package wrapper, so every underlying
+// Group.Write it issues is a point at which the checker may run a TICK = exactly what the two background
+// tickers do (BaseWAL flush ticker: FlushAndSync; group ticker: the group's own head-size check with the
+// configured limit). A history is executed under a tick schedule (the indices of the underlying writes
+// after which a tick runs). With one Write per record ticks can only land between records; a tick that
+// lands inside a record (cumulative bytes written not on a record boundary) is explored for EVERY history.
+//
 // Reference = the list of records written (the checker's own model of the four operations). After
 // every history: the group's files concatenate to exactly those records; reading from the first file
 // returns them all; SearchForEndHeight(h) for EVERY h in -1..hmax+1, with IgnoreDataCorruptionErrors
 // both ways, reports found iff an EndHeightMessage{h} is in the list, and the returned reader yields
-// exactly the records after (an occurrence of) that marker, then end-of-log.
+// exactly the records after (an occurrence of) that marker, then end-of-log; and every file of the group
+// starts on a frame boundary (each file alone decodes to whole written records until end-of-log), which
+// is what the newest-first search and repairWalFile rely on.
 
 var lifeMsgs = []int{4, 11, 8} // TOmax, VOnil, PRmax
 
@@ -43,13 +52,13 @@ type lifeModel struct {
 	emptyHeadRestart bool // some restart found an empty head after >= 1 rotation
 }
 
-func (m *lifeModel) start() {
-	if m.headEmpty {
+// started is called after a (re)start; headWasEmpty is the model's head state before it.
+func (m *lifeModel) started(headWasEmpty bool) {
+	if headWasEmpty {
 		if m.rotations > 0 && m.restarts > 0 {
 			m.emptyHeadRestart = true
 		}
 		m.recs = append(m.recs, consensus.TimedWALMessage{Time: tClock, Msg: consensus.EndHeightMessage{Height: 0}})
-		m.headEmpty = false
 	}
 }
 
@@ -97,9 +106,12 @@ type lifeInfo struct {
 	rotations        int
 	restarts         int
 	emptyHeadRestart bool
+	writes           int   // underlying Group.Write calls issued by the encoder
+	midRecord        []int // indices of the writes that ended inside a record
+	tickMidRecord    bool  // some executed tick landed inside a record
 }
 
-func checkLife(hist string, dir string, st *searchStats, out sink) (li lifeInfo) {
+func checkLife(hist string, ticks []int, dir string, st *searchStats, out sink) (li lifeInfo) {
 	os.RemoveAll(dir)
 	os.MkdirAll(dir, 0o700)
 	path := filepath.Join(dir, "wal")
@@ -108,8 +120,32 @@ func checkLife(hist string, dir string, st *searchStats, out sink) (li lifeInfo)
 			out("panic", fmt.Sprintf("BaseWAL panicked: %v\n%s", p, debug.Stack()))
 		}
 	}()
+	m := &lifeModel{headEmpty: true}
+	var cum []int // cumulative bytes written through the encoder after each underlying write
+	total := 0
+	tickAt := map[int]bool{}
+	for _, t := range ticks {
+		tickAt[t] = true
+	}
+	var tickErr error
+	hook := func(g *auto.Group, n int) {
+		k := len(cum)
+		total += n
+		cum = append(cum, total)
+		m.headEmpty = false
+		if tickAt[k] {
+			// what the BaseWAL flush ticker and the group ticker do
+			if err := g.FlushAndSync(); err != nil {
+				tickErr = err
+				return
+			}
+			g.VerifC15CheckHeadSizeLimit() // limit 1: rotates, the head is non-empty
+			m.rotations++
+			m.headEmpty = true
+		}
+	}
 	open := func() *consensus.BaseWAL {
-		wal, err := consensus.NewWAL(path, auto.GroupHeadSizeLimit(1), auto.GroupCheckDuration(time.Hour))
+		wal, err := consensus.VerifC15NewWALHooked(path, hook, auto.GroupHeadSizeLimit(1), auto.GroupCheckDuration(time.Hour))
 		if err != nil {
 			out("harness", "NewWAL: "+err.Error())
 			return nil
@@ -122,12 +158,11 @@ func checkLife(hist string, dir string, st *searchStats, out sink) (li lifeInfo)
 		}
 		return wal
 	}
-	m := &lifeModel{headEmpty: true}
 	wal := open()
 	if wal == nil {
 		return
 	}
-	m.start()
+	m.started(true)
 	for i := 0; i < len(hist); i++ {
 		var err error
 		switch hist[i] {
@@ -140,12 +175,10 @@ func checkLife(hist string, dir string, st *searchStats, out sink) (li lifeInfo)
 			}
 			m.nMsg++
 			m.recs = append(m.recs, consensus.TimedWALMessage{Time: tClock, Msg: msg})
-			m.headEmpty = false
 		case 'E':
 			m.h++
 			err = wal.WriteSync(consensus.EndHeightMessage{Height: m.h})
 			m.recs = append(m.recs, consensus.TimedWALMessage{Time: tClock, Msg: consensus.EndHeightMessage{Height: m.h}})
-			m.headEmpty = false
 		case 'R':
 			if err = wal.FlushAndSync(); err == nil {
 				wal.Group().VerifC15CheckHeadSizeLimit()
@@ -157,10 +190,14 @@ func checkLife(hist string, dir string, st *searchStats, out sink) (li lifeInfo)
 		case 'S':
 			quietStop(wal, true)
 			m.restarts++
+			was := m.headEmpty
 			if wal = open(); wal == nil {
 				return
 			}
-			m.start()
+			m.started(was)
+		}
+		if err == nil {
+			err = tickErr
 		}
 		if err != nil {
 			out("wal-write", fmt.Sprintf("operation %d (%c): %v", i, hist[i], err))
@@ -182,9 +219,23 @@ func checkLife(hist string, dir string, st *searchStats, out sink) (li lifeInfo)
 	g := wal.Group()
 	sizes, all := readGroupFiles(path, g.MaxIndex())
 	li.files = fmt.Sprint(sizes)
+	li.writes = len(cum)
+	onBoundary := map[int]bool{}
+	for _, o := range lc.off {
+		onBoundary[o] = true
+	}
+	for k, c := range cum {
+		if !onBoundary[c] {
+			li.midRecord = append(li.midRecord, k)
+			if tickAt[k] {
+				li.tickMidRecord = true
+			}
+		}
+	}
 	if !bytes.Equal(all, lc.W) {
 		out("rotation-bytes", fmt.Sprintf("files %v concatenate to %d bytes that differ from the %d bytes of the %d records written", sizes, len(all), len(lc.W), lc.n()))
 	}
+	checkFileFrames(lc, path, g.MaxIndex(), out)
 	gr, err := g.NewReader(g.MinIndex())
 	if err != nil {
 		out("harness", "NewReader: "+err.Error())
@@ -227,47 +278,159 @@ func describeRecs(recs []consensus.TimedWALMessage) string {
 }
 
 func lifeClass(li lifeInfo) string {
+	if li.tickMidRecord {
+		return "rotation-between-writes-of-one-record"
+	}
 	if li.emptyHeadRestart {
 		return "log-with-restart-on-empty-head"
 	}
 	return "rotation"
 }
 
-func livesPhase(depth int) {
+// lifeHistoriesAll: every history of length 1..depth with <= 2 restarts (no rotation required: the
+// ticks of the schedule rotate).
+func lifeHistoriesAll(depth int) []string {
+	var out []string
+	var rec func(prefix []byte, headEmpty bool, rst int)
+	rec = func(prefix []byte, headEmpty bool, rst int) {
+		if len(prefix) > 0 {
+			out = append(out, string(prefix))
+		}
+		if len(prefix) == depth {
+			return
+		}
+		for _, op := range []byte("MERS") {
+			switch op {
+			case 'M', 'E':
+				rec(append(prefix, op), false, rst)
+			case 'R':
+				if !headEmpty {
+					rec(append(prefix, op), true, rst)
+				}
+			case 'S':
+				if rst < 2 {
+					rec(append(prefix, op), false, rst+1)
+				}
+			}
+		}
+	}
+	rec(nil, false, 0)
+	var sorted []string
+	for l := 1; l <= depth; l++ {
+		for _, h := range out {
+			if len(h) == l {
+				sorted = append(sorted, h)
+			}
+		}
+	}
+	return sorted
+}
+
+// runLife executes one (history, tick schedule), reports, and returns what the explorer needs.
+func runLife(hist string, ticks []int) lifeInfo {
+	dir := dirPool.Get().(string)
+	var st searchStats
+	type pend struct{ oracle, what string }
+	var pending []pend
+	li := checkLife(hist, ticks, dir, &st, func(oracle, what string) { pending = append(pending, pend{oracle, what}) })
+	dirPool.Put(dir)
+	for _, p := range pending {
+		reportViolation(sig(lifeClass(li), p.oracle, "group"), fmt.Sprintf("history %s ticks after underlying writes %v: %s", hist, ticks, p.what),
+			caseSpec{Phase: "lives", History: hist, Ticks: append([]int{}, ticks...)})
+	}
+	r.Add("multi_life_runs", 1)
+	if len(ticks) > 0 {
+		r.Add("multi_life_runs_with_ticks", 1)
+		r.Add("multi_life_ticks_executed", int64(len(ticks)))
+	}
+	if li.tickMidRecord {
+		r.Add("multi_life_runs_with_tick_inside_a_record", 1)
+	}
+	r.Max("multi_life_max_underlying_writes", int64(li.writes))
+	if li.restarts > 0 {
+		r.Add("multi_life_histories_with_restart", 1)
+	}
+	if li.emptyHeadRestart {
+		r.Add("multi_life_histories_with_restart_on_empty_head", 1)
+	}
+	r.Add("searches", st.searches)
+	r.Add("searches_multi_life", st.searches)
+	r.Add("searches_found", st.found)
+	r.Add("searches_not_found", st.notFound)
+	if li.files != "" {
+		r.Distinct("distinct_nontrivial", fmt.Sprintf("life|%s|%d|%d", li.files, li.restarts, st.found))
+		r.Distinct("multi_life_distinct_layouts", li.files)
+	}
+	if li.emptyHeadRestart && len(hist) == 5 && len(ticks) == 0 && strings.HasPrefix(hist, "EMR") && wantSample("lives", 1) {
+		r.Sample(map[string]interface{}{"via": "BaseWAL multi-life history", "history": hist, "file_sizes": li.files, "rotations": li.rotations, "restarts": li.restarts,
+			"restart_on_empty_head": li.emptyHeadRestart, "underlying_writes": li.writes, "searches": st.searches, "found": st.found, "not_found": st.notFound})
+	}
+	if len(ticks) == 2 && len(hist) == 3 && strings.HasPrefix(hist, "ES") && wantSample("lives-ticks", 1) {
+		r.Sample(map[string]interface{}{"via": "BaseWAL multi-life history under a tick schedule", "history": hist, "ticks_after_underlying_writes": ticks, "file_sizes": li.files,
+			"rotations": li.rotations, "underlying_writes": li.writes, "writes_ending_inside_a_record": len(li.midRecord), "searches": st.searches, "found": st.found})
+	}
+	return li
+}
+
+// exploreTicks runs every extension of the schedule `ticks` (which was just executed and issued
+// `writes` underlying writes) by later tick positions taken from cand (nil: every write index).
+func exploreTicks(hist string, ticks []int, writes int, onlyMid bool, maxTicks int) {
+	if len(ticks) >= maxTicks {
+		return
+	}
+	lo := 0
+	if len(ticks) > 0 {
+		lo = ticks[len(ticks)-1] + 1
+	}
+	for k := lo; k < writes; k++ {
+		next := append(append([]int{}, ticks...), k)
+		li := runLife(hist, next)
+		exploreTicks(hist, next, li.writes, onlyMid, maxTicks)
+	}
+}
+
+func livesPhase(depth, tickDepth, maxTicks int) {
 	hists := lifeHistories(depth)
 	r.Set("multi_life_history_depth", depth)
+	r.Set("multi_life_tick_history_depth", tickDepth)
+	r.Set("multi_life_max_ticks", maxTicks)
 	done := par.For(int64(len(hists)), 4, phaseExpired, func(i int64) {
-		hist := hists[i]
-		dir := dirPool.Get().(string)
-		var st searchStats
-		type pend struct{ oracle, what string }
-		var pending []pend
-		li := checkLife(hist, dir, &st, func(oracle, what string) { pending = append(pending, pend{oracle, what}) })
-		dirPool.Put(dir)
-		for _, p := range pending {
-			reportViolation(sig(lifeClass(li), p.oracle, "group"), "history "+hist+": "+p.what, caseSpec{Phase: "lives", History: hist})
-		}
+		li := runLife(hists[i], nil)
 		r.Add("multi_life_histories", 1)
-		if li.restarts > 0 {
-			r.Add("multi_life_histories_with_restart", 1)
-		}
-		if li.emptyHeadRestart {
-			r.Add("multi_life_histories_with_restart_on_empty_head", 1)
-		}
-		r.Add("searches", st.searches)
-		r.Add("searches_multi_life", st.searches)
-		r.Add("searches_found", st.found)
-		r.Add("searches_not_found", st.notFound)
-		if li.files != "" {
-			r.Distinct("distinct_nontrivial", fmt.Sprintf("life|%s|%d|%d", li.files, li.restarts, st.found))
-			r.Distinct("multi_life_distinct_layouts", li.files)
-		}
-		if li.emptyHeadRestart && len(hist) == 5 && strings.HasPrefix(hist, "EMR") && wantSample("lives", 1) {
-			r.Sample(map[string]interface{}{"via": "BaseWAL multi-life history", "history": hist, "file_sizes": li.files, "rotations": li.rotations, "restarts": li.restarts,
-				"restart_on_empty_head": li.emptyHeadRestart, "searches": st.searches, "found": st.found, "not_found": st.notFound})
-		}
+		// ticks that land INSIDE a record are explored for every history (none exist while the encoder
+		// issues one write per record)
+		exploreMid(hists[i], nil, li, maxTicks)
 	})
 	if done < int64(len(hists)) {
 		r.NotExhaustive(fmt.Sprintf("multi-life phase: deadline after %d of %d histories", done, len(hists)))
+	}
+	// every tick schedule (any underlying write, also between records) for the short histories
+	short := lifeHistoriesAll(tickDepth)
+	done = par.For(int64(len(short)), 2, phaseExpired, func(i int64) {
+		li := runLife(short[i], nil)
+		r.Add("multi_life_tick_histories", 1)
+		exploreTicks(short[i], nil, li.writes, false, maxTicks)
+	})
+	if done < int64(len(short)) {
+		r.NotExhaustive(fmt.Sprintf("multi-life tick phase: deadline after %d of %d histories", done, len(short)))
+	}
+}
+
+// exploreMid extends the schedule only by writes that ended inside a record.
+func exploreMid(hist string, ticks []int, parent lifeInfo, maxTicks int) {
+	if len(ticks) >= maxTicks {
+		return
+	}
+	lo := 0
+	if len(ticks) > 0 {
+		lo = ticks[len(ticks)-1] + 1
+	}
+	for _, k := range parent.midRecord {
+		if k < lo {
+			continue
+		}
+		next := append(append([]int{}, ticks...), k)
+		li := runLife(hist, next)
+		exploreMid(hist, next, li, maxTicks)
 	}
 }
